@@ -95,9 +95,13 @@ fn jobs_for(prop: &'static str, thorough: bool, scale: f64) -> (Vec<Job>, &'stat
     };
     match prop {
         "C03" | "C04" | "C20" => (vec![mk("iovec", 1.0)], "exploration"),
-        "C01" | "C02" | "C07" => (vec![mk("codec", 1.0)], "exploration"),
+        // The long streams are round trips too (and their wire is scanned for FE FD).
+        "C01" | "C02" => (vec![mk("codec", 1.0), mk("longrun", 1.0)], "exploration"),
+        "C07" => (vec![mk("codec", 1.0)], "exploration"),
         "C09" => (vec![mk("codec", 1.0), mk("longrun", 1.0)], "exploration"),
-        "C06" | "C08" => (vec![mk("stream", 1.0)], "exploration"),
+        // C06 also reads the long logs (longrun generates nothing else for it).
+        "C06" => (vec![mk("stream", 1.0), mk("longrun", 1.0)], "exploration"),
+        "C08" => (vec![mk("stream", 1.0)], "exploration"),
         "C13" => (vec![mk("threads", 1.0)], "exploration"),
         "C18" => (vec![mk("threads", 1.0), mk("nfsthreads", 1.0)], "fault_enumeration"),
         "C14" => (vec![mk("vtime", 1.0)], "exploration"),
